@@ -1309,6 +1309,23 @@ def probe_cases():
             out.append(dict(base, side=side, enc=enc, limit=1024, framing="C", body=hx(body), merge_head=True,
                             wire_segs=[hx(wire[:3 + len(b"%x" % half) - 1]), hx(wire[3 + len(b"%x" % half) - 1:])],
                             shape="text+probe-sniff"))
+    # (c) content-coding spelling: every coding in upper and title case, valid bodies (on the code before the repair these
+    #     all fail with the one known signature K11); once the parser lower-cases the value, a truncated `DEFLATE` body
+    #     must also get the deflate eof check and a raw-deflate `Deflate` body the first-byte sniff
+    lowered = all(v.islower() for v in probe_content_coding_lowercased().values())
+    for enc in [e for e in ("gzip", "deflate", "rawdeflate", "br", "zstd") if e in available_encodings()]:
+        body = compress(enc, text)
+        cwire = b"%x\r\n" % len(body) + body + b"\r\n0\r\n\r\n"
+        for variant in ("upper", "title"):
+            for side in ("client", "server"):
+                out.append(dict(base, side=side, enc=enc, limit=1024, framing="L", body=hx(body), wire_segs=[hx(body)],
+                                shape="text+probe-coding-case", ce_variant=variant))
+                out.append(dict(base, side=side, enc=enc, limit=1024, framing="C", body=hx(body),
+                                wire_segs=[hx(cwire[:5]), hx(cwire[5:])], shape="text+probe-coding-case", ce_variant=variant))
+            if lowered and enc in ("deflate", "rawdeflate"):
+                t = body[:-3]
+                out.append(dict(base, side="client", enc=enc, limit=1024, framing="L", body=hx(t), wire_segs=[hx(t)],
+                                shape="text+trunc+probe-coding-case", ce_variant=variant))
     # (b) concatenated members whose decoded sizes make the output budget of one decode step (max(limit, low_water)) run out
     #     exactly at a member boundary: 1024/512/2048 with limit 1024 (whole and 97-byte segments), 1025 x 3 with 97-byte segments
     encs = [e for e in ("deflate", "rawdeflate", "gzip", "zstd") if e in available_encodings()]
